@@ -2587,6 +2587,19 @@ def run(ctx):
             violations.append(({"id": jid, "pkgpath": pk_of[jid].pkgpath if jid in pk_of else "", "files": []}, outs.get(jid, {}),
                                [("binary-zeroref", entries)]))
     shrunk = 0
+    remaining = []
+    for (j, o, bad) in violations:
+        p = pk_of.get(j["id"])
+        try:
+            fs = p.files_for_replay() if p is not None else {os.path.basename(f): open(f).read() for f in j["files"]}
+            why = const_implicit_type_finding(fs, o.get("objs", []), bad) if KEY_CONST_TYPE in known else None
+        except Exception:
+            why = None
+        if why:
+            ctx.known_finding("key=%s %s: %s" % (KEY_CONST_TYPE, j["id"], why))
+        else:
+            remaining.append((j, o, bad))
+    violations = remaining
     for (j, o, bad) in violations[:12]:
         p = pk_of.get(j["id"])
         files = p.files_for_replay() if p is not None else {os.path.basename(f): open(f).read() for f in j["files"]}
@@ -2622,6 +2635,60 @@ def run(ctx):
     elif corr_diffs:
         ctx.notes.append("correspondence diffs (next to the violations): %s" % json.dumps(corr_diffs[:4])[:1500])
     return vlib.finish(ctx, "translation_validation")
+
+
+KEY_CONST_TYPE = "const-implicit-type-across-groups"
+
+
+def const_implicit_type_finding(files, objs, bad):
+    """known finding const-implicit-type-across-groups: in a const block, a spec WITHOUT type and value that follows a blank
+    line implicitly repeats `T = iota`-style type+value of an earlier spec of ANOTHER group (rule 10.1 groups constants by blank
+    lines); when only that later constant is used, U1000 reports the type T (and the constants of the first group) although the
+    used constant has type T, so deleting T breaks the package ("undefined: T"). Returns a description if EVERY failure of this
+    package is exactly that, else None."""
+    if not bad or any(not k.endswith("deletion") for k, _ in bad):
+        return None
+    errs = []
+    for _, dt in bad:
+        es = (dt or {}).get("errors") or []
+        if not es:
+            return None
+        errs += es
+    und = set()
+    for e in errs:
+        m = re.search(r": undefined: ([A-Za-z_]\w*)\s*$", e.strip())
+        if not m:
+            return None
+        und.add(m.group(1))
+    reported_types = set(ob[1] for ob in objs if ob[0] == "type" and ob[3] == "X")
+    reported_consts = set(ob[1] for ob in objs if ob[0] == "const" and ob[3] == "X")
+    witnesses = {}
+    for text in files.values():
+        text = strip_markers(text) if "strip_markers" in globals() else text
+        for blk in re.finditer(r"^const \(\n(.*?)^\)", text, re.S | re.M):
+            cur_t, broke = None, False
+            for line in blk.group(1).split("\n"):
+                if line.strip() == "":
+                    broke = True
+                    continue
+                m = re.match(r"^\s*([A-Za-z_]\w*(?:\s*,\s*[A-Za-z_]\w*)*)\s+([A-Za-z_][\w.]*)\s*=", line)
+                if m:
+                    cur_t, broke = m.group(2), False
+                    continue
+                if re.match(r"^\s*[A-Za-z_]\w*(?:\s*,\s*[A-Za-z_]\w*)*\s*=", line):
+                    cur_t, broke = None, False      # untyped explicit spec: nothing inherited from before
+                    continue
+                m = re.match(r"^\s*([A-Za-z_]\w*(?:\s*,\s*[A-Za-z_]\w*)*)\s*(//.*)?$", line)
+                if m and cur_t and broke:
+                    names = [x.strip() for x in m.group(1).split(",")]
+                    kept = [n for n in names if n not in reported_consts and n != "_"]
+                    if kept and cur_t in reported_types:
+                        witnesses.setdefault(cur_t, []).extend(kept)
+    if und and und <= set(witnesses):
+        return "; ".join("type %s reported although the used constant(s) %s implicitly repeat `%s = …` across a blank line" %
+                         (t, ",".join(sorted(set(witnesses[t]))), t) for t in sorted(und))
+    return None
+
 
 
 def strip_markers(s):
